@@ -21,10 +21,11 @@ from vlib import lp
 
 MODEL = "assign"
 MODULE = "Model.Assign"
-THEOREMS_RR = ["C15_assign_defined", "C15_exactly_one", "C15_only_subscribed", "C15_only_listed",
-               "C15_balanced", "C15_perm_invariant", "C15_decode_encode", "C15_encode_defined"]
-THEOREMS_CODEC = ["C15_codec_roundtrip", "C15_codec_defined", "C15_decode_encode"]
-THEOREMS_META = ["C15_metadata_roundtrip"]
+THEOREMS_RR = ["C15_assign_defined", "C15_leader_two_calls", "C15_exactly_one", "C15_only_subscribed", "C15_only_listed",
+               "C15_balanced", "C15_perm_invariant", "C15_subscription_listing_irrelevant", "C15_decode_encode",
+               "C15_encode_defined", "C15_bytes_to_assignment"]
+THEOREMS_CODEC = ["C15_codec_roundtrip", "C15_codec_defined", "C15_decode_encode", "C15_decoders_no_fuel_assignment"]
+THEOREMS_META = ["C15_metadata_roundtrip", "C15_decoders_no_fuel_metadata", "C15_bytes_to_assignment"]
 
 I32MAX, I32MIN = 2 ** 31 - 1, -2 ** 31
 
@@ -232,7 +233,13 @@ def monitor_wire(raw, decoded):
 
 
 def shuffled_input(members, tp, rnd):
-    ms = list(members)
+    ms = []
+    for m, subs in members:
+        subs = list(subs)
+        rnd.shuffle(subs)                                   # C15_subscription_listing_irrelevant: order / repetition
+        if subs and rnd.random() < 0.3:                     # of the names inside a subscription list
+            subs.insert(rnd.randrange(len(subs) + 1), rnd.choice(subs))
+        ms.append((m, subs))
     rnd.shuffle(ms)
     items = list(tp.items())
     rnd.shuffle(items)
@@ -245,7 +252,8 @@ def shuffled_input(members, tp, rnd):
 
 
 def monitor_perm(members, tp, decoded, rnd):
-    """C15_perm_invariant: another listing order of the same member set / partitions, same shares."""
+    """C15_perm_invariant + C15_subscription_listing_irrelevant: another listing order of the same member set /
+    partitions / names inside each subscription list, same shares."""
     if len({m for m, _ in members}) != len(members):
         return None   # a repeated id is outside the statement (the later metadata wins)
     ms, tp2 = shuffled_input(members, tp, rnd)
@@ -382,6 +390,74 @@ def gen_input(rnd, big=False):
     items = list(tp.items())
     rnd.shuffle(items)
     return members, collections.OrderedDict(items)
+
+
+COMBINING = [0x300, 0x301, 0x308, 0x327, 0x20D7, 0x1AB0]
+
+
+def rand_name(rnd, prefix_pool, ascii_only=False, maxlen=12):
+    """a random name: common prefix + random code points (ASCII punctuation incl. ':', digits, Latin-1, combining
+    marks, CJK, astral); never a surrogate (ids travel as UTF-8 in the end-to-end rounds)"""
+    r = rnd.random()
+    pre = rnd.choice(prefix_pool) if r < 0.6 else ""
+    n = rnd.choice([0, 1, 1, 2, 3, 5, 8, maxlen])
+    out = []
+    for _ in range(n):
+        k = rnd.random()
+        if ascii_only or k < 0.45:
+            out.append(rnd.choice("abcXYZ019:._-~ /"))
+        elif k < 0.60:
+            out.append(chr(rnd.choice(COMBINING)))
+        elif k < 0.75:
+            out.append(chr(rnd.randint(0xA1, 0x24F)))
+        elif k < 0.90:
+            out.append(chr(rnd.choice([0x4E2D, 0x6587, 0xFFFD, 0xFFFF, 0xE000, 0xD7FF])))
+        else:
+            out.append(chr(rnd.choice([0x10000, 0x1F600, 0x10FFFF, 0x2F800])))
+    return pre + "".join(out)
+
+
+def gen_input_names(rnd, crowd=False):
+    """audit 4.3: names outside the fixed pools - random code points incl. combining marks, common prefixes, ids
+    containing ':' / made of digits only (numeric order != code-point order), more than 32 members, topic names
+    longer than 50 characters"""
+    style = rnd.random()
+    n = rnd.randint(33, 70) if crowd else rnd.choice([1, 2, 3, 4, 5, 6, 8, 12])
+    ids = set()
+    guard = 0
+    while len(ids) < n and guard < 50 * n:
+        guard += 1
+        if style < 0.25:
+            ids.add(str(rnd.choice([rnd.randint(0, 12), rnd.randint(0, 120), rnd.randint(0, 10 ** 6), 10 ** rnd.randint(0, 9)])))   # digits only
+        elif style < 0.45:
+            ids.add("%s:%s" % (rnd.choice(["h", "host", "10.0.0.1", ""]), rnd.choice(["", str(rnd.randint(0, 99)), "a", ":"])) + rnd.choice(["", "-" + str(rnd.randint(0, 30))]))
+        else:
+            ids.add(rand_name(rnd, ["consumer-", "consumer-1", "afkak-", "é", "é", "m"]))
+    ids = list(ids)
+    rnd.shuffle(ids)
+    topics = set()
+    nt = rnd.randint(1, 6)
+    guard = 0
+    while len(topics) < nt and guard < 200:
+        guard += 1
+        t = rand_name(rnd, ["t", "topic.", "topic-", "a" * 60, "x" * rnd.choice([51, 120, 249])], ascii_only=rnd.random() < 0.97)
+        topics.add(t)
+    topics = list(topics)
+    mode = rnd.random()
+    members = []
+    for i, m in enumerate(ids):
+        if mode < 0.4:
+            subs = list(topics)
+            rnd.shuffle(subs)
+        elif mode < 0.8:
+            subs = [t for t in topics if rnd.random() < 0.6] or [rnd.choice(topics)]
+        else:
+            subs = [topics[i % len(topics)]]
+        members.append((m, subs))
+    tp = collections.OrderedDict()
+    for t in topics:
+        tp[t] = gen_parts(rnd) if not crowd else list(range(rnd.choice([1, 7, 32, 33, 64, 100, 131])))
+    return members, tp
 
 
 def classify(ck, members, tp, trace):
@@ -538,6 +614,39 @@ def search_around(members, tp, rnd, n=300):
     return None
 
 
+def observe(observations, where, what, replay):
+    """coverage.observations: behaviour outside the property's quantifier (a broker that omits a requested topic),
+    recorded with the first input that showed it; never a verdict"""
+    key = "%s: %s" % (where, "snapshot without a requested topic" if "no entry for requested topic" in what else what.split(";")[0][:80])
+    o = observations.setdefault(key, {"id": "F-C15-1 (candidate; coordinator: not a C15 finding, consequence is known F-C17-2)",
+                                      "where": "afkak/client.py:436 (topics rebound to the response's dict), _group.py:496-501",
+                                      "what": what, "replay": replay, "seen": 0})
+    o["seen"] += 1
+
+
+def shrink_lookup(requested, truth, script):
+    """fewer topics / shorter script while an honest-broker lookup still breaks the contract"""
+    def fails(req, scr):
+        if not req or not scr:
+            return False
+        log, result, client = lookup_round(req, truth, scr)
+        return bool(monitor_snapshot(req, truth, log, result, client)) and not omitted_in(log, req)
+    changed = True
+    while changed:
+        changed = False
+        for i in range(len(requested)):
+            r2 = requested[:i] + requested[i + 1:]
+            if fails(r2, script):
+                requested, changed = r2, True
+                break
+        for i in range(len(script) - 1):
+            s2 = script[:i] + script[i + 1:]
+            if fails(requested, s2):
+                script, changed = s2, True
+                break
+    return requested, collections.OrderedDict((t, ps) for t, ps in truth.items() if t in requested), script
+
+
 # ------------------------------------------------------------------ the check
 def run(ck):
     vlib.import_repo()
@@ -550,6 +659,14 @@ def run(ck):
     inputs = list(CORPUS)
     inputs += [gen_input(rnd) for _ in range(1200 * scale)]
     inputs += [gen_input(rnd, big=True) for _ in range(25 * scale)]
+    rnd_names = random.Random(ck.seed * 7919 + 43)          # own generator: the older streams keep their cases
+    named = [gen_input_names(rnd_names) for _ in range(150 * scale)] + [gen_input_names(rnd_names, crowd=True) for _ in range(8 * scale)]
+    ck.hist("random_name_inputs", len(named))
+    ck.hist("inputs_with_more_than_32_members", sum(1 for ms, _tp in named if len(ms) > 32))
+    ck.hist("inputs_with_digit_only_or_colon_ids", sum(1 for ms, _tp in named if any(m.isdigit() or ":" in m for m, _ in ms)))
+    ck.hist("inputs_with_combining_marks_in_ids", sum(1 for ms, _tp in named if any(ord(c) in COMBINING for m, _ in ms for c in m)))
+    ck.hist("inputs_with_topic_names_over_50_chars", sum(1 for _ms, tp in named if any(len(t) > 50 for t in tp)))
+    inputs += named
     if ck.tier != "quick":
         inputs += list(small_scope())
         ck.hist("exhaustive_small_scope_cases", sum(1 for _ in small_scope()))
@@ -669,6 +786,7 @@ def run(ck):
                  -9: "decode_protocol_error", -10: "decode_null_topic"}.get(o[0], "decode_other"))
     diffs, mo = ck.correspond(MODEL, MODULE, cases, impl, "decode_sync_group_member_assignment vs Model.Assign.dec_assignment",
                               nontrivial=lambda c, o: len(c) > 12, describe=lambda c: {"op": 3, "line": c[:60]})
+    ck.hist("model_out_of_fuel_on_assignment_bytes", sum(1 for o in mo if o == [-3]))     # C15_decoders_no_fuel_assignment: 0
     if diffs and not ck.violations:
         i = diffs[0]
         ck.violation({"kind": "correspondence broken", "correspondence": "corr:assign:decoded-assignment-of-bytes",
@@ -703,7 +821,8 @@ def run(ck):
     if diffs and not ck.violations:
         v, subs, ud = meta[diffs[0]]
         ck.violation({"kind": "correspondence broken", "correspondence": "corr:assign:encoded-metadata-bytes",
-                      "theorems_no_longer_tied": THEOREMS_META, "version": v, "subscriptions": [s[:40] for s in subs],
+                      "theorems_no_longer_tied": THEOREMS_META, "version": v, "subscriptions": [x[:400] for x in subs],
+                      "truncated": any(len(x) > 400 for x in subs), "user_data": None if ud is None else list(ud),
                       "impl": impl[diffs[0]][:80], "model": mo[diffs[0]][:80], "replay_op": "meta"}, no_input=True)
     datas = []
     for b in metas:
@@ -720,6 +839,7 @@ def run(ck):
         impl.append(o)
     diffs, mo = ck.correspond(MODEL, MODULE, cases, impl, "decode_join_group_protocol_metadata vs Model.Assign.dec_metadata",
                               nontrivial=lambda c, o: len(c) > 12, describe=lambda c: {"op": 5, "line": c[:60]})
+    ck.hist("model_out_of_fuel_on_metadata_bytes", sum(1 for o in mo if o == [-3]))       # C15_decoders_no_fuel_metadata: 0
     if diffs and not ck.violations:
         i = diffs[0]
         ck.violation({"kind": "correspondence broken", "correspondence": "corr:assign:decoded-metadata-of-bytes",
@@ -727,19 +847,129 @@ def run(ck):
                       "replay_op": "meta"}, no_input=True)
 
     # ---------------- 6. the same through the real Coordinator._join_and_sync of every member
+    #   (partition lookup stubbed by its documented contract here; streams 7/8 drive the real one).
+    #   Every other round the coordinator elects a member other than the first and lists the members shuffled.
+    rnd6 = random.Random(ck.seed * 7919 + 6)
     n_e2e = 0
-    for members, tp in [x for x in inputs if e2e_eligible(*x)][:150 * scale]:
+    pool6 = [x for x in inputs if e2e_eligible(*x)]
+    e2e_inputs = pool6[:120 * scale] + [x for x in named if e2e_eligible(*x)][:40 * scale]
+    for members, tp in e2e_inputs:
         n_e2e += 1
-        got, err = e2e_round(members, tp)
+        li, osd = (0, None) if n_e2e % 2 else (rnd6.randrange(len(members)), rnd6.randrange(1 << 16))
+        if li % len(members):
+            ck.hist("coordinator_rounds_leader_not_first")
+        if osd is not None:
+            ck.hist("coordinator_rounds_join_listing_shuffled")
+        got, err = e2e_round(members, tp, li, osd)
         want = ck_model_decoded(ck, members, tp)
         if err or got != want:
-            ms, tp2 = shrink_input(members, tp, lambda a, b: e2e_eligible(a, b) and (lambda g: g[1] or g[0] != ck_model_decoded(ck, a, b))(e2e_round(a, b)))
-            got2, err2 = e2e_round(ms, tp2)
+            def bad6(a, b):
+                if not e2e_eligible(a, b):
+                    return False
+                g, e = e2e_round(a, b, li, osd)
+                return bool(e) or g != ck_model_decoded(ck, a, b)
+            ms, tp2 = shrink_input(members, tp, bad6)
+            got2, err2 = e2e_round(ms, tp2, li, osd)
             ck.violation(dict(describe_input(ms, tp2), kind="Coordinator._join_and_sync round: what the members receive in on_join_complete "
                               "differs from the proved assignment", error=err2, received=repr(got2), model=repr(ck_model_decoded(ck, ms, tp2)),
-                              replay_op="e2e"))
+                              leader_idx=li, order_seed=osd, replay_op="e2e"))
             break
     ck.hist("coordinator_rounds", n_e2e)
+
+    # ---------------- 7. the REAL KafkaClient._load_topic_partitions against a scripted metadata broker
+    #   (audit 3 / 4.1).  Honest brokers (every requested topic echoed; per-topic errors / empty partition lists
+    #   before a good answer; unrequested extra topics): the documented snapshot contract is a monitor.
+    #   A broker that OMITS a requested topic is outside what a conforming broker does (coordinator's decision:
+    #   not a C15 finding): what the code does then is recorded under coverage.observations, never a verdict.
+    rnd7 = random.Random(ck.seed * 7919 + 7)
+    observations = {}
+    topic_sets = []
+    for members, tp in pool6:
+        ts = sorted({t for _m, subs in members for t in subs})
+        if ts:
+            topic_sets.append((ts, normal_tp(tp)))
+    n7 = 0
+    for ts, truth in topic_sets[:220 * scale]:
+        kind = ["echo", "retry", "retry", "extra", "omit"][n7 % 5]
+        n7 += 1
+        requested = list(ts)
+        rnd7.shuffle(requested)
+        script = gen_script(rnd7, requested, kind)
+        log, result, client = lookup_round(requested, truth, script)
+        bad = monitor_snapshot(requested, truth, log, result, client)
+        ck.hist("lookup_%s" % kind)
+        ck.hist("lookup_requests=%s" % (len(log) if len(log) < 4 else "4+"))
+        if bad and omitted_in(log, requested):
+            observe(observations, "lookup", bad, {"requested": requested, "truth": [[t, ps] for t, ps in truth.items() if t in requested],
+                                                  "script": script, "replay_op": "lookup"})
+        elif bad:
+            requested, truth2, script = shrink_lookup(requested, truth, script)
+            log, result, client = lookup_round(requested, truth2, script)
+            ck.violation({"kind": "KafkaClient._load_topic_partitions: documented snapshot contract (client.py:412-424) broken against "
+                          "a broker that answers every requested topic", "what": monitor_snapshot(requested, truth2, log, result, client) or bad,
+                          "requested": requested, "truth": [[t, ps] for t, ps in truth2.items()], "script": script,
+                          "requests_sent": [e["asked"] for e in log], "answers": [e["answer"] for e in log],
+                          "result": result if isinstance(result, (dict, type(None))) else repr(result), "replay_op": "lookup"})
+            break
+    ck.hist("lookup_rounds", n7)
+
+    # ---------------- 8. leader path with the real lookup: Coordinator._join_and_sync -> generate_assignments({}) ->
+    #   _NeedTopicPartitions -> REAL client._load_topic_partitions (scripted broker) -> generate_assignments(snapshot)
+    #   -> SyncGroup -> every member's decode_assignment; compared with the proved model on the broker's truth.
+    rnd8 = random.Random(ck.seed * 7919 + 8)
+    n8 = 0
+    for members, tp in (pool6[120 * scale:] + pool6)[:70 * scale]:
+        kind = ["retry", "echo", "retry", "extra", "omit"][n8 % 5]
+        n8 += 1
+        truth = normal_tp(tp)
+        ts = sorted({t for _m, subs in members for t in subs})
+        script = gen_script(rnd8, ts, kind)
+        li, osd = rnd8.randrange(len(members)), rnd8.choice([None, rnd8.randrange(1 << 16)])
+        info = {}
+        got, err = e2e_round(members, truth, li, osd, lookup=script, info=info)
+        want = ck_model_decoded(ck, members, truth)
+        ck.hist("leader_lookup_%s" % kind)
+        sn_bad = None
+        for sn in info["snapshots"]:
+            sn_bad = sn_bad or monitor_snapshot(sn["requested"], truth, info["lookup_log"],
+                                                sn["result"] if isinstance(sn["result"], dict) else sn["result"], sn["client"])
+        if not info["snapshots"] and want is not None:
+            sn_bad = "the leader never finished its partition lookup"
+        omitted = omitted_in(info["lookup_log"], ts)
+        if omitted and (sn_bad or err or got != want):
+            pub = {}
+            e2e_round(members, truth, li, osd, lookup=script, info=pub, public=True)
+            observe(observations, "leader", "broker omitted %r: %s; leader: %s; leader sent SyncGroup: %s; members with an assignment: %d of %d; "
+                    "through join_and_sync(): timers armed afterwards %s, rejoin_after_error calls %s"
+                    % (omitted, sn_bad, type(info["leader_error"]).__name__ if info["leader_error"] is not None else err,
+                       info["leader_sent_sync"], len(got), len(members), pub.get("timers_armed_afterwards"), pub.get("rejoin_after_error_calls")),
+                    dict(describe_input(members, truth), script=script, leader_idx=li, order_seed=osd, replay_op="leader_lookup"))
+            wrong = {m: d for m, d in got.items() if want is None or d != want.get(m)}
+            if wrong:
+                # an assignment WAS handed out and it is not the proved one: that is a verdict even with a dishonest broker
+                ck.violation(dict(describe_input(members, truth), kind="leader with an omitted topic handed out an assignment that is not the proved one",
+                                  received=repr(got), model=repr(want), script=script, leader_idx=li, order_seed=osd, replay_op="leader_lookup"))
+                break
+        elif sn_bad or err or got != want:
+            def bad8(a, b):
+                if not e2e_eligible(a, b):
+                    return False
+                b = normal_tp(b)
+                i2 = {}
+                g, e = e2e_round(a, b, li, osd, lookup=script, info=i2)
+                return (bool(e) or g != ck_model_decoded(ck, a, b)) and not omitted_in(i2["lookup_log"], sorted({t for _m, s_ in a for t in s_}))
+            ms, tp2 = shrink_input(members, truth, bad8)
+            i2 = {}
+            got2, err2 = e2e_round(ms, tp2, li, osd, lookup=script, info=i2)
+            ck.violation(dict(describe_input(ms, tp2), kind="leader path with the real client._load_topic_partitions: the members do not receive "
+                              "the proved assignment although the broker answered every requested topic",
+                              what=sn_bad or err2 or "assignment differs", error=err2, received=repr(got2), model=repr(ck_model_decoded(ck, ms, tp2)),
+                              script=script, requests_sent=[e["asked"] for e in i2["lookup_log"]], answers=[e["answer"] for e in i2["lookup_log"]],
+                              snapshots=[[x["requested"], x["result"]] for x in i2["snapshots"]],
+                              leader_idx=li, order_seed=osd, replay_op="leader_lookup"))
+            break
+    ck.hist("leader_rounds_with_real_lookup", n8)
+    ck.cov["observations"] = [dict(v, seen=v["seen"]) for v in observations.values()]
 
     ck.cov["rule"] = (
         "seeded generator (random.Random(VERIF_SEED)): 0-25 members from id pools chosen so that lexicographic code-point order differs from "
@@ -748,7 +978,14 @@ def run(ck):
         "partition maps with 0..300 partitions, contiguous, sparse, unsorted, repeated, int32 extremes, out-of-range ids, topics nobody "
         "subscribes, subscribed topics without entry, non-ASCII topic names; every case first through generate_assignments({}) as the "
         "coordinator does.  Codec: dicts/user data/versions incl. out-of-range, valid encodings cut at a random prefix, with flipped, inserted, "
-        "deleted bytes and patched length fields, random bytes.  thorough adds every member set over 3 ids x subscription subsets of 2 topics "
+        "deleted bytes and patched length fields, random bytes.  Random-name stream (own generator): ids and topics of random code points "
+        "(combining marks, Latin-1, CJK, astral), common prefixes, ids containing ':' or made of digits only, 33-70 members, topic names "
+        "longer than 50 characters.  Stream 6: rounds of real Coordinator objects (every member's _join_and_sync, real JoinGroup/SyncGroup "
+        "codecs, scripted coordinator; every other round a non-first leader and a shuffled member listing; partition lookup stubbed by its "
+        "contract).  Stream 7: the real KafkaClient._load_topic_partitions against a scripted metadata broker (echo with topics and "
+        "partitions out of order; per-topic errors with and without partitions / empty partition lists before a good answer; unrequested "
+        "extra topics; and a broker that omits a requested topic - observation only).  Stream 8: stream 6 with the real lookup of stream 7 in "
+        "the leader.  thorough adds every member set over 3 ids x subscription subsets of 2 topics "
         "x 0..3 partitions (exhaustive small scope) and every prefix of an encoding.  A case is non-trivial if at least two members received "
         "an answer with at least one partition / the byte string is longer than 10 bytes; distinct = distinct canonical case lines.")
     ck.assumptions += [
@@ -765,6 +1002,15 @@ def run(ck):
         "struct.pack/unpack big-endian h/i modelled by division and remainder; struct.error on out-of-range values is an explicit Err",
         "string lengths below -1 raise ProtocolError (tree after fix e0719d1); the model follows the fixed readers",
         "python -O (assert removed) is not modelled",
+        "the leader's second generate_assignments succeeds iff the snapshot of client._load_topic_partitions has an entry for each subscribed "
+        "topic (C15_leader_two_calls, boolean snapshot_covers); that the real client delivers such a snapshot is checked by streams 7/8 only "
+        "for brokers that answer every requested topic (conforming Metadata v0 behaviour); for a broker that omits a requested topic the "
+        "real client returns a snapshot without it (client.py:436 rebinds `topics` to the response) and the leader raises "
+        "_NeedTopicPartitions a second time: no assignment at all (recorded under coverage.observations; consequence = known F-C17-2)",
+        "member metadata that is not valid UTF-8 (UnicodeDecodeError inside the leader) is outside the model: such byte strings are "
+        "dropped from the decode_join_group_protocol_metadata comparison (histogram metadata_decode_invalid_utf8_not_modelled)",
+        "the exception CLASS raised by the two decoders on malformed bytes is part of the compared trace (error kinds are pinned): a change "
+        "of exception type there is reported as a broken correspondence without failing input",
         "extraction: ExtrOcamlBasic only; Z/positive/nat stay Coq datatypes; sample re-evaluated in Coq by vm_compute",
     ]
     ck.cov["trusted_base"] += ["correspondence harness harness/props/C15.py + harness/vlib.py",
@@ -1171,16 +1417,11 @@ def e2e_round(members, tp, leader_idx=0, order_seed=None, lookup=None, info=None
         c._heartbeat_looper.clock = clock
         coords.append(c)
     info["leader_error"] = None
+    if public:
+        logging.disable(logging.CRITICAL)                    # join_and_sync() logs the escaping exception (stderr noise)
     try:
         for c in coords:
-            if public:
-                logging.disable(logging.CRITICAL)            # join_and_sync() logs the escaping exception
-                try:
-                    d = c.join_and_sync()
-                finally:
-                    logging.disable(logging.NOTSET)
-            else:
-                d = c._join_and_sync()
+            d = c.join_and_sync() if public else c._join_and_sync()
 
             def failed(f, c=c):
                 errors.append(repr(f.value))
@@ -1196,6 +1437,9 @@ def e2e_round(members, tp, leader_idx=0, order_seed=None, lookup=None, info=None
         info["rejoin_after_error_calls"] = len([e for e in errors if e.startswith("join_and_sync:")])
     except Exception as e:  # noqa: BLE001
         errors.append(repr(e))
+    finally:
+        if public:
+            logging.disable(logging.NOTSET)
     if errors:
         return received, "; ".join(errors)[:500]
     if set(received) != set(ids):
@@ -1204,29 +1448,124 @@ def e2e_round(members, tp, leader_idx=0, order_seed=None, lookup=None, info=None
 
 
 # ------------------------------------------------------------------ replay
+def model_now(cases):
+    """the extracted model on a few case lines, for --replay (None if the runner is not built)"""
+    try:
+        return vlib.Check("C15", "quick", 0).model(MODEL, cases)
+    except Exception as e:  # noqa: BLE001
+        print("model runner unavailable:", e)
+        return None
+
+
 def replay(rp):
+    """re-runs the recorded case on the implementation (and the model); 0 = the case passes now, 1 = it still fails"""
     op = rp.get("replay_op")
     print(json.dumps({k: v for k, v in rp.items() if k not in ("traceback",)}, indent=1, default=repr)[:4000])
-    if op in ("generate", "e2e"):
+    if op in ("generate", "e2e", "leader_lookup"):
         members = [(m, list(s)) for m, s in rp["members"]]
         tp = collections.OrderedDict((t, list(ps)) for t, ps in rp["topic_partitions"])
         trace, bad = check_case(members, tp, random.Random(1))
         print("implementation now:", trace)
         print("monitor verdict:", bad)
-        if op == "e2e":
-            got, err = e2e_round(members, tp)
-            print("coordinator round now:", got, err)
-            return 1 if (bad or err) else 0
-        return 1 if bad else 0
+        mo = model_now([gen_case_line(1, members, tp)])
+        if mo is not None:
+            print("model:", mo[0])
+            if mo[0] != trace:
+                bad = bad or "implementation and model differ"
+        if op == "generate":
+            return 1 if bad else 0
+        li, osd = rp.get("leader_idx", 0), rp.get("order_seed")
+        info = {}
+        got, err = e2e_round(members, tp, li, osd, lookup=rp.get("script"), info=info)
+        print("coordinator round now:", got, err)
+        if rp.get("script") is not None:
+            print("metadata requests:", [e["asked"] for e in info["lookup_log"]])
+            print("answers:", [e["answer"] for e in info["lookup_log"]])
+            print("snapshots:", [(x["requested"], x["result"]) for x in info["snapshots"]])
+            print("leader sent SyncGroup:", info["leader_sent_sync"], " leader error:", repr(info["leader_error"]))
+            for sn in info["snapshots"]:
+                v = monitor_snapshot(sn["requested"], tp, info["lookup_log"], sn["result"], sn["client"])
+                print("snapshot contract:", v)
+                bad = bad or v
+        want = None
+        if mo is not None and mo[0][0] == 0:
+            want = ck_model_decoded(vlib.Check("C15", "quick", 0), members, tp)
+            if got != want:
+                bad = bad or "members received %r, proved assignment %r" % (got, want)
+        return 1 if (bad or err) else 0
+    if op == "lookup":
+        requested = list(rp["requested"])
+        truth = collections.OrderedDict((t, list(ps)) for t, ps in rp["truth"])
+        log, result, client = lookup_round(requested, truth, rp["script"])
+        print("metadata requests:", [e["asked"] for e in log])
+        print("answers:", [e["answer"] for e in log])
+        print("result:", result)
+        v = monitor_snapshot(requested, truth, log, result, client)
+        print("snapshot contract:", v, "| topics the broker omitted:", omitted_in(log, requested))
+        return 1 if v else 0
     if op == "codec":
         v, d = rp["version"], [(t, list(ps)) for t, ps in rp["assignments"]]
         ud = None if rp["user_data"] is None else bytes(rp["user_data"])
         trace, b = impl_encode(v, d, ud)
-        print("encode now:", trace)
+        print("encode now:", trace[:200])
+        bad = None
+        c = [2, v, len(d)]
+        for t, ps in d:
+            c += lp(cps(t)) + lp(ps)
+        mo = model_now([c + ud_line(ud)])
+        if mo is not None and mo[0] != trace:
+            print("model:", mo[0][:200])
+            bad = "encoder and model differ"
         if b is not None:
-            print("decode now:", impl_decode(b)[0])
-        return 1
+            dt, r = impl_decode(b)
+            print("decode now:", dt[:200])
+            if v == 0 and (r is None or r.version != 0 or list(r.assignments.items()) != [(t, tuple(ps)) for t, ps in d] or r.user_data != ud):
+                bad = bad or "decode(encode(x)) != x"
+            if v != 0 and dt != [-9]:
+                bad = bad or "version %d accepted by the decoder" % v
+        elif v == 0 and all(all(ord(ch) < 128 for ch in t) and len(t) <= 32767 and all(I32MIN <= p <= I32MAX for p in ps) for t, ps in d):
+            bad = bad or "encoder raised on in-range input"
+        print("verdict:", bad)
+        return 1 if bad else 0
     if op == "decode":
-        print("decode now:", impl_decode(bytes(rp["bytes"]))[0])
+        data = bytes(rp["bytes"])
+        trace = impl_decode(data)[0]
+        print("decode now:", trace[:200])
+        mo = model_now([[3] + lp(list(data))])
+        if mo is not None:
+            print("model:", mo[0][:200])
+            return 0 if mo[0] == trace else 1
         return 1
+    if op == "meta":
+        bad = None
+        if "bytes" in rp:
+            data = bytes(rp["bytes"])
+            trace, outside = impl_meta_decode(data)
+            print("decode now:", trace[:200], "(invalid UTF-8: outside the model)" if outside else "")
+            mo = model_now([[5] + lp(list(data))])
+            if mo is not None and not outside:
+                print("model:", mo[0][:200])
+                bad = None if mo[0] == trace else "decoder and model differ"
+            elif mo is None:
+                bad = "model unavailable"
+        else:
+            v, subs = rp["version"], list(rp["subscriptions"])
+            ud = None if rp.get("user_data") is None else bytes(rp["user_data"])
+            trace, b = impl_meta_encode(v, subs, ud)
+            print("encode now:", trace[:200])
+            c = [4, v, len(subs)]
+            for x in subs:
+                c += lp(list(x.encode("utf-8")))
+            mo = model_now([c + ud_line(ud)])
+            if mo is not None and mo[0] != trace and not rp.get("truncated"):
+                print("model:", mo[0][:200])
+                bad = "encoder and model differ"
+            if b is not None:
+                from afkak.kafkacodec import KafkaCodec
+                r = KafkaCodec.decode_join_group_protocol_metadata(b)
+                print("decode now:", (r.version, list(r.subscriptions), r.user_data))
+                if (r.version, list(r.subscriptions), r.user_data) != (v, subs, ud):
+                    bad = bad or "decode(encode(x)) != x"
+        print("verdict:", bad)
+        return 1 if bad else 0
     return 1
